@@ -5,7 +5,7 @@ STEP (record integrity: every slot / the saved slot / the returned tuple is one 
 own evaluation number), the x0-exit of solve_main, and OUTER (merge of hard-restart runs, un-scaling).
 """
 from ..harness import Harness, run_property
-from .. import core, step, outer
+from .. import core, step, outer, runstart
 from . import c02
 
 
@@ -21,7 +21,7 @@ def shared_c02_harnesses(tier, which=('x0', 'evalobj', 'admission')):
 
 
 def harnesses(tier, seed):
-    return step.step_harnesses(tier, seed, 'C03') + shared_c02_harnesses(tier, ('x0',)) + outer.outer_harnesses(tier, seed, 'C03')
+    return step.step_harnesses(tier, seed, 'C03') + shared_c02_harnesses(tier, ('x0',)) + outer.outer_harnesses(tier, seed, 'C03') + runstart.start_harnesses(tier, seed, 'C03')
 
 
 def run(tier, seed):
